@@ -1,53 +1,8 @@
 #!/bin/bash
-# seedeval.sh <PROP> <variant-dir> <name> [check-props...] — confirms an independently written breakage in a scratch
-# worktree (compiles, existing suite passes, demo fails with / passes without), then runs our check(s) against it
-# in /repo (applied, checked, reverted) and files it under /verif/seeded/<name>/.
-PROP=$1; SRC=$(readlink -f $2); NAME=$3; shift 3; CHECKS=${@:-$PROP}
-V=/verif; E=/tmp/wt-eval
-export GOFLAGS=-mod=mod GOPROXY=off
-cd /repo || exit 2
-git diff --quiet || { echo "/repo dirty"; exit 2; }
-[ -d $E ] || git worktree add -q --detach $E HEAD
-cd $E && git checkout -q --detach $(git -C /repo rev-parse HEAD) && git checkout -q -- . && git clean -qfd
-res() { echo "$NAME: $*"; }
-git apply --check $SRC/patch.diff 2>/dev/null || { res "PATCH-DOES-NOT-APPLY"; exit 0; }
-# without the patch the demo passes
-cp $SRC/demo_test.go ./zz_demo_test.go
-go test -vet=off -count=1 -run 'TestSeededDemo' . > /tmp/seed-clean.log 2>&1; c0=$?
-git apply $SRC/patch.diff
-go build ./... > /tmp/seed-build.log 2>&1 || { res "DOES-NOT-COMPILE"; git checkout -q -- .; rm -f zz_demo_test.go; exit 0; }
-go test -vet=off -count=1 -run 'TestSeededDemo' . > /tmp/seed-patched.log 2>&1; c1=$?
-rm -f zz_demo_test.go
-go test -vet=off -count=1 . ./internal/... > /tmp/seed-suite.log 2>&1; s1=$?
-git checkout -q -- .
-[ $c0 -eq 0 ] || { res "DEMO-FAILS-WITHOUT-PATCH"; exit 0; }
-[ $c1 -ne 0 ] || { res "DEMO-PASSES-WITH-PATCH"; exit 0; }
-[ $s1 -eq 0 ] || { res "EXISTING-SUITE-FAILS-WITH-PATCH ($(grep -m1 -- '--- FAIL' /tmp/seed-suite.log))"; exit 0; }
-# our checks
-cd /repo && git apply $SRC/patch.diff || exit 2
-out=""; caught=""
-for c in $CHECKS; do
-  o=$(VF_MIN_S=5 $V/bin/vfcheck run $c quick 2>&1); rc=$?
-  if [ $rc -eq 1 ]; then caught="$caught $c"; out="$out$c: $(echo "$o" | grep -m1 'class=' | cut -c1-260)\n"; 
-  elif [ $rc -ne 0 ]; then out="$out$c: TROUBLE rc=$rc $(echo "$o" | tail -2 | cut -c1-200)\n"; fi
-done
-git checkout -q -- .
-find $V/replays -type f -newer $SRC/patch.diff -mmin -10 -delete 2>/dev/null
-mkdir -p $V/seeded/$NAME
-cp $SRC/patch.diff $SRC/demo_test.go $V/seeded/$NAME/ 2>/dev/null; cp $SRC/notes.md $V/seeded/$NAME/ 2>/dev/null
-python3 - "$PROP" "$NAME" "$caught" "$CHECKS" <<'EOP'
-import json,sys,subprocess
-prop,name,caught,checks=sys.argv[1:5]
-notes=open('/verif/seeded/%s/notes.md'%name).read() if __import__('os').path.exists('/verif/seeded/%s/notes.md'%name) else ''
-meta={'property':prop,'name':name,'origin':'sub-agent given only the property text and a scratch worktree','base_commit':subprocess.run(['git','-C','/repo','rev-parse','--short','HEAD'],capture_output=True,text=True).stdout.strip(),
- 'needs_to_manifest':notes.strip().split('\n')[0:12],
- 'confirmed':{'compiles':True,'existing_suite_passes_with_patch':True,'demo_fails_with_patch':True,'demo_passes_without_patch':True,'how':'bin/seedeval.sh in scratch worktree /tmp/wt-eval'},
- 'checks_run':checks.split(),'caught_by':caught.split()}
-import os
-if os.path.exists('/verif/seeded/%s/meta.json'%name):
-    old=json.load(open('/verif/seeded/%s/meta.json'%name))
-    meta['first_evaluation']=old.get('first_evaluation', {'checks_run':old.get('checks_run'),'caught_by':old.get('caught_by')})
-json.dump(meta,open('/verif/seeded/%s/meta.json'%name,'w'),indent=1)
-EOP
-if [ -n "$caught" ]; then res "CAUGHT by$caught"; else res "MISSED by $CHECKS"; fi
-printf "$out"
+# seedeval.sh <PROP> <variant-dir> <name> [check-props...] — confirms and evaluates one independently written breakage.
+# Runs as lane 0 of seedlane.sh with all cores: scratch worktree /tmp/wt-lane-0 (confirmation, and the tree the checks are
+# built from), scratch copy of /verif in /tmp/vf-lane-0 (so /verif/evidence is never written from a changed tree; an earlier
+# version of this script applied the change to /repo itself and left such evidence files behind until the next clean run).
+PROP=$1; SRC=$2; NAME=$3; shift 3
+C=$(echo "$@" | tr ' ' ',')
+LANE_NPROC=16 exec $(dirname $(readlink -f $0))/seedlane.sh 0 "$PROP:$SRC:$NAME${C:+:$C}"
